@@ -4,6 +4,7 @@ from __future__ import annotations
 
 import itertools
 import math
+import random
 
 import numpy as np
 
@@ -77,6 +78,7 @@ def work(tier, seed):
     items.append({"kind": "errors"})
     items.append({"kind": "pole"})
     items += [{"kind": "narrow_float_sets", "dtype": dt_} for dt_ in ("float32", "float16")]
+    items += [{"kind": "near_cases", "which": k} for k in range(3)]
     for k in range(3):
         items.append({"kind": "alpha_sweep", "which": k, "n": 250 if tier == "quick" else 1500})
     return items
@@ -128,6 +130,8 @@ def run(item, ctx, tier, seed):
         return _run_alpha_sweep(item, ctx)
     if item["kind"] == "narrow_float_sets":
         return _run_narrow_float_sets(item, ctx)
+    if item["kind"] == "near_cases":
+        return _run_near_cases(item, ctx)
     ulp_item = item.get("alphabet") == "ulp"
     ms = multisets(b, ULP_ALPHABET) if ulp_item else multisets(b)
     theta_hats = ULP_THETA_HATS if ulp_item else b["theta_hat"]
@@ -328,6 +332,70 @@ def run(item, ctx, tier, seed):
                                 ctx.fail("components-independent", dict(case, component=k, scale=scales[k], alpha=0.1),
                                          observed=flat[k], expected=single)
     ctx.sample({"kind": "stacked", "metric_shapes": b["metric_shapes"], "alpha_shapes": b["alpha_shapes"]})
+    return None
+
+
+def _run_near_cases(item, ctx):
+    """
+    Inputs that are *nearly* something special, judged to 1e-12 of the replicate range (the reference is good to 1e-15):
+      0  replicates almost symmetric about the estimate: acceleration 1e-13 .. 1e-7 instead of exactly 0;
+      1  several components in one call that are almost copies of each other (levels equal to 1e-5 .. 1e-9, not equal);
+      2  the estimate almost at a replicate (relative distance 1e-13 .. 1e-9): 'theta <= theta_hat' still decides.
+    """
+    k = item["which"]
+    cases = []
+    if k == 0:
+        base = [-9.0, -4.0, -2.0, -1.0, -0.5, 0.0, 0.5, 1.0, 2.0, 4.0, 9.0] * 3
+        for eps_ in (1e-3, 1e-5, 1e-6, 1e-7, 3e-8):
+            for shift_at in (0, 5, len(base) - 1):
+                th = list(base)
+                th[shift_at] += eps_
+                cases.append((th, 0.0, None))
+    elif k == 1:
+        rnd = random.Random(12345)
+        col = [math.exp(rnd.gauss(0.0, 1.0)) for _ in range(400)]
+        for rel in (3e-5, 1e-6, 1e-8):
+            col2 = list(col)
+            for j in (3, 77, 211):
+                col2[j] *= 1 + rel
+            col3 = [v * (1 + rel * 0.5) if i % 50 == 0 else v for i, v in enumerate(col)]
+            cases.append((None, None, [col, col2, col3]))
+    else:
+        col = [0.1 * i for i in range(1, 40)]
+        for rel in (1e-9, 1e-11, 1e-13):
+            for j in (5, 20):
+                cases.append((col, col[j] * (1 + rel), None))
+                cases.append((col, col[j] * (1 - rel), None))
+    for theta, th, stacked in cases:
+        for method in ("bc", "bca"):
+            for alpha in (0.01, 0.05, 0.5):
+                ctx.state()
+                ctx.nontrivial()
+                if stacked is None:
+                    rng_ = max(theta) - min(theta)
+                    case = {"kind": "near_cases", "which": k, "n": len(theta), "theta_hat": th, "method": method, "alpha": alpha,
+                            "theta_head": theta[:6]}
+                    ok, ci = guarded(ctx, "call", case, _call, theta, th, alpha, method)
+                    ctx.tick()
+                    want = refs.ref_bootstrap_ci(theta, th, alpha, method)
+                    if ok and want is not None and not np.allclose(np.asarray(ci, dtype=float), want, rtol=0, atol=1e-12 * rng_):
+                        ctx.fail("limits-equal-documented-formula", case, observed=ci, expected=list(want))
+                else:
+                    arr = np.array(stacked, dtype=float).T  # (N, components)
+                    hats = [float(np.median(c)) * 1.1 for c in stacked]
+                    case = {"kind": "near_cases", "which": k, "n": arr.shape[0], "components": arr.shape[1], "method": method, "alpha": alpha}
+                    ok, ci = guarded(ctx, "stacked-call", case, _call, arr, np.array(hats), alpha, method)
+                    ctx.tick()
+                    if not ok:
+                        continue
+                    ci = np.asarray(ci, dtype=float)
+                    for c_ in range(arr.shape[1]):
+                        want = refs.ref_bootstrap_ci(stacked[c_], hats[c_], alpha, method)
+                        rng_ = max(stacked[c_]) - min(stacked[c_])
+                        if want is not None and not np.allclose(ci[c_], want, rtol=0, atol=1e-12 * rng_):
+                            ctx.fail("components-independent", dict(case, component=c_), observed=ci[c_], expected=list(want))
+                            break
+    ctx.sample({"kind": "near_cases", "which": k, "cases": len(cases)})
     return None
 
 
